@@ -85,9 +85,9 @@ def strOfVal : Val → Option String
 def hasRare (stats : List Stat) (nNan lenDf : Nat) (minFreq : Rat) : Bool :=
   nNan > 0 || stats.any (fun s => decide ((((s.n : Nat) : Rat) / (lenDf : Nat)) ≤ minFreq / 2))
 
-/-- `QuantitativeDiscretizer.fit` for one feature -/
-def quantOrder (h : QHist) (nNan : Nat) (minFreq : Rat) (strNan : String) : Except Err GL := do
-  let g0 := contOrder h nNan (qOf minFreq) strNan
+/-- `QuantitativeDiscretizer.fit` for one feature, `q` quantiles requested -/
+def quantOrderQ (h : QHist) (nNan : Nat) (q : Nat) (minFreq : Rat) (strNan : String) : Except Err GL := do
+  let g0 := contOrder h nNan q strNan
   let lenDf := total (hist h) + nNan
   let bounds := g0.lst.filter (Disc.neNan (some strNan))
   let stats := bucketStats h bounds
@@ -98,6 +98,10 @@ def quantOrder (h : QHist) (nNan : Nat) (minFreq : Rat) (strNan : String) : Exce
   let known := (bounds.zip labels).map (·.2)
   let groups := findCommonModalities known (stats.take known.length) lenDf (minFreq / 2)
   convertToValuesQuant g0 groups (labelsToQuantiles g0.lst labels)
+
+/-- `QuantitativeDiscretizer.fit` for one feature -/
+def quantOrder (h : QHist) (nNan : Nat) (minFreq : Rat) (strNan : String) : Except Err GL :=
+  quantOrderQ h nNan (qOf minFreq) minFreq strNan
 
 /-! ### qualitative features: rows are `(cell, y)` -/
 
@@ -164,14 +168,9 @@ structure CatResult where
   grouped : List Val
 deriving Repr
 
-/-- `CategoricalDiscretizer._prepare_data` + `fit` for one feature.  `provided` is the user's
-    `values_orders` entry, if any.  Two orders are unspecified in the code (pandas sorts with an
-    unstable algorithm): among equally frequent values in `value_counts`, and among modalities with
-    equal target rates in `sort_values`; the model uses first appearance / sorted keys, and the
-    specification predicate `catAccepts` accepts every order the code may produce. -/
-def catOrder (provided : Option GL) (rows : Rows) (minFreq : Rat) (strNan strDefault : String) :
-    Except Err CatResult := do
-  let n := rows.length
+/-- `CategoricalDiscretizer._prepare_data` for one feature: the initial order, unknown values sent to
+    an existing default group, the unexpected-value assertion, `append(str_nan)`, `fillna(str_nan)` -/
+def catPrepare (provided : Option GL) (rows : Rows) (strNan strDefault : String) : Except Err (GL × Rows) :=
   let g0 := match provided with
     | some g => g
     | none => GL.ofList (uniques rows)
@@ -181,37 +180,59 @@ def catOrder (provided : Option GL) (rows : Rows) (minFreq : Rat) (strNan strDef
     | some v => if v ∉ g0.values && Disc.neNan (some strNan) v && hasDef then (some (Val.str strDefault), r.2) else r
     | none => r)
   let unexpected : Bool := (uniques rows1).any (fun (v : Val) => decide (v ∉ g0.values))
-  if unexpected then throw (Err.assertion "Unexpected value") else
+  if unexpected then .error (Err.assertion "Unexpected value") else
   let g1 := if hasNan rows1 && decide (Val.str strNan ∉ g0.values) then g0.append (.str strNan) else g0
   -- `fillna(str_nan)`
-  let rows2 : Rows := rows1.map (fun r => match r.1 with
+  .ok (g1, rows1.map (fun r => match r.1 with
     | none => (some (Val.str strNan), r.2)
-    | some _ => r)
+    | some _ => r))
+
+/-- share of the rows holding `v` -/
+def freqOf (rows : Rows) (n : Nat) (v : Val) : Rat := ((countOf rows (some v) : Nat) : Rat) / (n : Nat)
+
+/-- the values `CategoricalDiscretizer.fit` sends to the default group: the observed values rarer
+    than `min_freq` (in `value_counts` order, `str_nan` excepted), then the leaders never observed -/
+def catToGroup (g1 : GL) (rows2 : Rows) (minFreq : Rat) (strNan : String) : List Val :=
   let observed := uniques rows2
-  -- `value_counts(normalize=True)`: decreasing counts
   let byCount := sortByKey (fun v => -((countOf rows2 (some v) : Nat) : Rat)) observed
-  let rare := byCount.filter (fun v => decide ((((countOf rows2 (some v) : Nat) : Rat) / (n : Nat)) < minFreq) && v != Val.str strNan)
-  let toGroup := rare ++ g1.lst.filter (fun v => decide (v ∉ observed))
-  let (g2, rows3) ←
-    if toGroup.any Val.truthy then
-      match (g1.append (.str strDefault)).groupList toGroup (.str strDefault) with
-      | (g', none) => pure (g', rows2.map (fun r => match r.1 with
-          | some v => if v ∈ toGroup then (some (Val.str strDefault), r.2) else r
-          | none => r))
-      | (_, some e) => throw e
-    else pure (g1, rows2)
-  -- `y.groupby(x).mean().sort_values()`: keys sorted, then by rate
+  byCount.filter (fun v => decide (freqOf rows2 rows2.length v < minFreq) && v != Val.str strNan) ++
+    g1.lst.filter (fun v => decide (v ∉ observed))
+
+/-- grouping of the rare values into `str_default` (order and column) -/
+def catGroupRare (g1 : GL) (rows2 : Rows) (toGroup : List Val) (strDefault : String) : Except Err (GL × Rows) :=
+  if toGroup.any Val.truthy then
+    match (g1.append (.str strDefault)).groupList toGroup (.str strDefault) with
+    | (g', none) => .ok (g', rows2.map (fun r => match r.1 with
+        | some v => if v ∈ toGroup then (some (Val.str strDefault), r.2) else r
+        | none => r))
+    | (_, some e) => .error e
+  else .ok (g1, rows2)
+
+/-- ordering by training target rate: `y.groupby(x).mean().sort_values()`, the consistency
+    assertion on `str_default`, `str_nan` last, `sort_by` -/
+def catSort (g2 : GL) (rows3 : Rows) (toGroup : List Val) (strNan strDefault : String) : Except Err CatResult :=
   let keys := GL.isort strLeVal (uniques rows3)
   let rated := keys.map (fun v => (v, rateOf rows3 v))
-  let sorted := sortByKey (fun p => p.2) rated
-  let newOrder0 := sorted.map (·.1)
+  let newOrder0 := (sortByKey (fun p => p.2) rated).map (·.1)
   let dInOrder := decide (Val.str strDefault ∈ g2.lst)
   let dInNew := decide (Val.str strDefault ∈ newOrder0)
-  if dInOrder != dInNew then throw (Err.assertion "Some values are never observed") else
+  if dInOrder != dInNew then .error (Err.assertion "Some values are never observed") else
   let newOrder := if Val.str strNan ∈ newOrder0 then newOrder0.filter (· != Val.str strNan) ++ [Val.str strNan] else newOrder0
   match g2.sortBy newOrder with
-  | .ok g3 => pure ⟨g3, rated, toGroup⟩
-  | .error e => throw e
+  | .ok g3 => .ok ⟨g3, rated, toGroup⟩
+  | .error e => .error e
+
+/-- `CategoricalDiscretizer._prepare_data` + `fit` for one feature.  `provided` is the user's
+    `values_orders` entry, if any.  Two orders are unspecified in the code (pandas sorts with an
+    unstable algorithm): among equally frequent values in `value_counts`, and among modalities with
+    equal target rates in `sort_values`; the model uses first appearance / sorted keys, and the
+    specification predicate `SpecPipe.catAccepts` accepts every order the code may produce. -/
+def catOrder (provided : Option GL) (rows : Rows) (minFreq : Rat) (strNan strDefault : String) :
+    Except Err CatResult :=
+  (catPrepare provided rows strNan strDefault).bind fun p1 =>
+  let toGroup := catToGroup p1.1 p1.2 minFreq strNan
+  (catGroupRare p1.1 p1.2 toGroup strDefault).bind fun p2 =>
+  catSort p2.1 p2.2 toGroup strNan strDefault
 
 /-! ### StringDiscretizer -/
 
